@@ -10,7 +10,7 @@ from ..runner import Leg, Res, libcall
 PROPERTY = 'C17'
 NEED_C = False
 RULE = ('Generated leg: two sequences over an alphabet of 2-4 symbols, lengths 0..7; scoring = default, or '
-        'make_substitution_fn(dict, gap, opt) with generated (possibly asymmetric, always both-ordered) dictionaries '
+        'make_substitution_fn(dict, gap, opt) with generated (possibly asymmetric; a pair may be stored in one orientation only and then scores the same both ways) dictionaries '
         'of dyadic values, gap in {0.25,0.5,1,2,3}, opt in {max,min}; traceback order = one of the 6 permutations. '
         'Exhaustive leg: alphabet {A,B}, all 961 ordered pairs with lengths 0..4 x 6 orders, default scoring. '
         'Oracle: independent global-alignment DP, itself validated against the enumeration of all alignments when '
@@ -35,6 +35,8 @@ def _cost_fn(case):
     def cost(a, b):
         if (a, b) in mat:
             return mat[(a, b)] * mod
+        if (b, a) in mat:
+            return mat[(b, a)] * mod     # a pair stored in one orientation only scores the same both ways
         return -1.0 if a == b else 1.0
     return cost, float(sc['gap'])
 
@@ -172,7 +174,14 @@ def _case(draw):
                 v = draw(DY)
                 mat[a + b] = v
                 if a != b:
-                    mat[b + a] = v if draw(st.booleans()) else draw(DY)
+                    o = draw(st.integers(0, 3))
+                    if o == 0:
+                        pass                      # stored in this orientation only (triangular dictionary)
+                    elif o == 1:
+                        del mat[a + b]            # ... or in the other orientation only
+                        mat[b + a] = v
+                    else:
+                        mat[b + a] = v if o == 2 else draw(DY)
         scoring = {'matrix': mat, 'gap': draw(st.sampled_from([1.0, 1.0, 0.25, 0.5, 2.0, 3.0])),
                    'opt': draw(st.sampled_from(['max', 'min']))}
     order = list(draw(st.permutations([0, 1, 2])))
